@@ -508,9 +508,133 @@ def _run_sources(case):
     return dict(stats=st, findings=f, samples=samples, nontrivial=cnt['n'])
 
 
+# ---- metamorphic relations for all four centroid functions (concrete) ------
+META_FUNCS = ('centroid_com', 'centroid_quadratic', 'centroid_1dg',
+              'centroid_2dg')
+
+
+def _meta_scene(scene):
+    # the frame is chosen so that a point-symmetric scene is point-symmetric
+    # *within the frame* (centre of symmetry = centre of the frame)
+    ny, nx = (14, 16) if scene == 'sym-half' else (15, 17)
+    yy, xx = np.mgrid[:ny, :nx].astype(float)
+
+    def g(x0, y0, sx, sy, th, a):
+        c, s_ = np.cos(th), np.sin(th)
+        u = (xx - x0) * c + (yy - y0) * s_
+        v = -(xx - x0) * s_ + (yy - y0) * c
+        return a * np.exp(-0.5 * ((u / sx) ** 2 + (v / sy) ** 2))
+    if scene == 'sym-pixel':       # point-symmetric about a pixel centre
+        return g(8, 7, 2.2, 1.4, 0.5, 50) + g(5, 5, 1, 1, 0, 6) + g(
+            11, 9, 1, 1, 0, 6) + 1.0, (8.0, 7.0)
+    if scene == 'sym-half':        # point-symmetric about a pixel corner
+        return g(7.5, 6.5, 2.0, 2.6, -0.4, 40) + g(4.5, 4.5, 1, 1, 0, 5) + g(
+            10.5, 8.5, 1, 1, 0, 5) + 0.5, (7.5, 6.5)
+    # no symmetry at all
+    return g(7.3, 6.1, 2.4, 1.5, 0.7, 45) + g(10.2, 8.3, 1.2, 1.2, 0, 9) \
+        + 0.02 * xx + 0.5, None
+
+
+def _meta_check(fname, scene, rel):
+    import photutils.centroids as pc
+    fn_ = getattr(pc, fname)
+    img, centre = _meta_scene(scene)
+    tol = 1e-9 if fname in ('centroid_com', 'centroid_quadratic') else 2e-5
+
+    def run(a, mask=None):
+        with warnings.catch_warnings():
+            warnings.simplefilter('ignore')
+            a0 = a.copy()
+            m0 = None if mask is None else mask.copy()
+            r = np.asarray(fn_(a, mask=mask), float)
+            if not np.array_equal(a, a0) or (
+                    mask is not None and not np.array_equal(mask, m0)):
+                raise AssertionError('input modified')
+            return r
+    H, W = img.shape
+    if fname == 'centroid_quadratic' and scene == 'sym-half':
+        # four tied peak pixels: which one seeds the fit box is the
+        # function's (documented: first maximum) choice, not a relation
+        return None
+    base = run(img)
+    if not np.all(np.isfinite(base)):
+        return f'{fname} returned {base} on a clean bright source'
+    if rel == 'symmetry':
+        if centre is None:
+            return None
+        if np.max(np.abs(base - centre)) > tol:
+            return (f'{fname}: symmetry centre {centre} of a point-symmetric '
+                    f'source, got {tuple(base)}')
+    elif rel == 'flipx':
+        r = run(img[:, ::-1].copy())
+        if abs(r[0] - (W - 1 - base[0])) > tol or abs(r[1] - base[1]) > tol:
+            return f'{fname}: flip x gives {tuple(r)}, expected ' \
+                   f'{(W - 1 - base[0], base[1])}'
+    elif rel == 'flipy':
+        r = run(img[::-1, :].copy())
+        if abs(r[1] - (H - 1 - base[1])) > tol or abs(r[0] - base[0]) > tol:
+            return f'{fname}: flip y gives {tuple(r)}, expected ' \
+                   f'{(base[0], H - 1 - base[1])}'
+    elif rel == 'transpose':
+        r = run(img.T.copy())
+        if abs(r[0] - base[1]) > tol or abs(r[1] - base[0]) > tol:
+            return f'{fname}: transposed image gives {tuple(r)}, expected ' \
+                   f'{(base[1], base[0])}'
+    elif rel in ('scale-big', 'scale-small'):
+        k = 1e4 if rel == 'scale-big' else 1e-17
+        r = run(img * k)
+        if np.max(np.abs(r - base)) > tol:
+            return f'{fname}: data * {k} gives {tuple(r)}, expected ' \
+                   f'{tuple(base)}'
+    elif rel == 'masked-values':
+        mask = np.zeros(img.shape, bool)
+        mask[2, 3] = mask[12, 13] = mask[6, 9] = True
+        a = img.copy()
+        b = img.copy()
+        b[mask] = [1e6, -3e5, 7e4]
+        ra, rb = run(a, mask), run(b, mask)
+        if not np.allclose(ra, rb, rtol=0, atol=tol, equal_nan=True):
+            return f'{fname}: values under the mask change the result: ' \
+                   f'{tuple(ra)} vs {tuple(rb)}'
+    return None
+
+
+def _run_meta(case):
+    cnt = dict(n=0)
+    samples = []
+    rels = ['symmetry', 'flipx', 'flipy', 'transpose', 'scale-big',
+            'scale-small', 'masked-values']
+
+    def fn(ctx):
+        fname = ctx.choice('func', META_FUNCS)
+        scene = ctx.choice('scene', ['sym-pixel', 'sym-half', 'asym'])
+        rel = ctx.choice('rel', rels)
+        ctx.stats.obligations += 1
+        cnt['n'] += 1
+        try:
+            msg = _meta_check(fname, scene, rel)
+            if case.get('twin') and rel == 'transpose' and msg is None:
+                msg = 'twin: transposition deliberately mis-specified'
+        except AssertionError as e:
+            msg = f'{fname}: {e}'
+        if msg is None:
+            ctx.stats.unsat += 1
+        else:
+            ctx.stats.sat += 1
+            ctx.find(f'meta:{fname}:{rel}', msg, ctx.witness(),
+                     params=dict(kind='meta', func=fname, scene=scene,
+                                 rel=rel, twin=bool(case.get('twin'))))
+        if len(samples) < 2:
+            samples.append(dict(func=fname, scene=scene, rel=rel))
+
+    _, st, f = explore(fn)
+    return dict(stats=st, findings=f, samples=samples, nontrivial=cnt['n'])
+
+
 def run_case(case):
     return dict(com=_run_com, quad=_run_quad, quadT=_run_quadT,
-                round=_run_round, sources=_run_sources)[case['kind']](case)
+                round=_run_round, sources=_run_sources,
+                meta=_run_meta)[case['kind']](case)
 
 
 def cases(tier, seed):
@@ -538,6 +662,8 @@ def cases(tier, seed):
         cs.append(dict(kind='quadT', name=f'quadT-{shape[0]}x{shape[1]}-fit'
                        f'{fit}', shape=shape, fit=fit))
     cs.append(dict(kind='round', name='py2intround'))
+    cs.append(dict(kind='meta', name='metamorphic-all-centroid-functions'))
+    cs.append(dict(kind='meta', name='metamorphic-twin', twin=True))
     for fp in FOOTPRINTS:
         cs.append(dict(kind='sources', name=f'sources-1-{fp}', shape=(5, 6),
                        nsrc=1, fp=fp, qx=(0, 20), qy=(0, 16)))
@@ -581,6 +707,14 @@ def replay(f):
     import photutils.centroids.core as cc
     p = f['params']
     w = f['witness']
+    if p['kind'] == 'meta':
+        if p.get('twin'):
+            return False, 'twin'
+        try:
+            msg = _meta_check(p['func'], p['scene'], p['rel'])
+        except AssertionError as e:
+            msg = str(e)
+        return msg is not None, str(msg)
     if p['kind'] == 'sources':
         try:
             msg = _sources_check(tuple(p['shape']), p['fp'],
